@@ -347,15 +347,24 @@ def build_case(case, world, inst):
     raise ValueError(case)
 
 
-def evaluate(q, world, inst):
-    try:
-        obj, b = Q.build(q, world, inst)
+def evaluate(q, world, inst, twice=False):
+    """build and evaluate; with `twice` also the result of evaluating the same query object again"""
+    def once(obj, b):
         if q[2] == "entity":
             return list(obj.evaluate())
         sel = b.sel[q]
         return [tuple(r[s] for s in sel) for r in obj.evaluate()]
+    try:
+        obj, b = Q.build(q, world, inst)
+        first = once(obj, b)
     except Exception as e:
-        return exc_obs(e)
+        return (exc_obs(e), None) if twice else exc_obs(e)
+    if not twice:
+        return first
+    try:
+        return first, once(obj, b)
+    except Exception as e:
+        return first, exc_obs(e)
 
 
 def lab(kind, res):
@@ -382,21 +391,24 @@ def run_case(case, inst):
     def body():
         world = build_world(wspec_of(case), inst)
         q, qe, exp, kind = build_case(case, world, inst)
-        got = evaluate(q, world, inst)
+        got, again = evaluate(q, world, inst, twice=True)
         gote = None
         if qe is not None:
             world2 = build_world(wspec_of(case), inst)
             gote = lab(kind, evaluate(qe, world2, inst))
         n = len(world["DM"])
-        return lab(kind, got), gote, lab(kind, exp), kind, n
+        return lab(kind, got), (lab(kind, again) if again is not None else None), gote, lab(kind, exp), kind, n
 
-    got, gote, exp, kind, n = run_isolated(body)
+    got, again, gote, exp, kind, n = run_isolated(body)
     res = {"ok": True, "nontrivial": 0 < len(exp) and (kind != "list" or len(exp) < n), "transitions": 2,
            "tags": [f"family={case[0]}"], "outcome": f"{case[0]}:{len(exp)}"}
     if got != exp:
         k = f"exc:{got[1]}" if is_exc(got) else ("missing" if set(exp) - set(got) else ("extra" if set(got) - set(exp) else "order-or-count"))
         res.update(ok=False, sig=f"{case[0]}:{k}" + (f"/{case[1]}" if case[0] in ("type", "pos", "kw", "mixed") else ""),
                    obs=got, exp=exp)
+    elif again is not None and again != exp:
+        k = f"exc:{again[1]}" if is_exc(again) else ("missing" if set(exp) - set(again) else ("extra" if set(again) - set(exp) else "order-or-count"))
+        res.update(ok=False, sig=f"{case[0]}:second-evaluation:{k}", obs=("evaluated again", again), exp=exp)
     elif gote is not None and gote != exp:
         res.update(ok=False, sig=f"{case[0]}:explicit-form-differs", obs=("explicit form", gote), exp=exp)
     return res
@@ -421,4 +433,4 @@ def describe(case, inst):
         src = Q.up_query(q, inst) + ("\n# explicit form: " + Q.up_query(qe, inst) if qe else "")
     except Exception as e:     # describing must never fail a run
         src = f"<{e}>"
-    return Q.up_world(wspec_of(case), inst) + "\n" + src + "\nresult = list(q.evaluate())   # expected: isinstance filter + field equalities"
+    return Q.up_world(wspec_of(case), inst) + "\n" + src + "\nresult = list(q.evaluate()); again = list(q.evaluate())   # expected (both): isinstance filter + field equalities"
